@@ -116,9 +116,11 @@ def check_parse(rep, prog):
     broad = [h for h in handlers if h.data[1] in ("Exception", "BaseException", None)]
     okc = bool(calls) and bool(broad)
     if okc:
+        from .c12 import tries_covering
         for c in calls:
-            excs = [x.args[0] for x in (c.guard.args if isinstance(c.guard, Op) and c.guard.op == "and" else [c.guard])
-                    if isinstance(x, Op) and x.op == "not" and isinstance(x.args[0], Sym) and x.args[0].kind == "exc"]
+            # the try statements whose BODY holds the call (code after a try whose handler returns carries the same "no
+            # exception so far" condition but is not protected by it)
+            excs = tries_covering(I.events, c)
             okc = okc and any(h.data[0] in excs for h in broad)
     rep.check(okc, "C04.R2.parser-failure-contained", "the parser call is covered by 'except Exception' (error note + hex dump)", where,
               "cls.parseUDToJson(...)", "an exception raised by a parser module is not caught by a handler for Exception: the section "
@@ -126,8 +128,8 @@ def check_parse(rep, prog):
     imps = [e for e in I.events if e.kind == "import_module"]
     oki = bool(imps)
     for c in imps:
-        excs = [x.args[0] for x in (c.guard.args if isinstance(c.guard, Op) and c.guard.op == "and" else [c.guard])
-                if isinstance(x, Op) and x.op == "not" and isinstance(x.args[0], Sym) and x.args[0].kind == "exc"]
+        from .c12 import tries_covering
+        excs = tries_covering(I.events, c)
         oki = oki and any(h.data[0] in excs for h in broad)
     rep.check(oki, "C04.R2.parser-failure-contained", "importing the parser module is covered by 'except Exception' too", where,
               "importlib.import_module(...)", "a parser module that fails to import with anything but ImportError (SyntaxError, missing data "
@@ -265,8 +267,14 @@ def run(rep, prog, thorough):
     check_text_format(rep, prog)
     check_sections(rep, prog)
     # "the section still appears": the document assembly keeps one entry per decoded section (rule shared with C01)
-    from .c01 import check_buildoutput
+    from .c01 import check_buildoutput, check_header
     check_buildoutput(rep, prog)
+    # the payload handed to a section is the one its header delimits (rule shared with C01)
+    check_header(rep, prog)
+    # what a section shows comes from this log's payload, not from an earlier one (rule shared with C19)
+    from .c05 import decoder_runs
+    from .c19 import check_decode_state
+    check_decode_state(rep, prog, decoder_runs(prog))
     # a hex dump stands for the payload only if it shows every byte (rule shared with C16)
     from .c16 import check_hexdump_lines
     check_hexdump_lines(rep, prog, "C04.R1.payload-never-dropped", thorough)
